@@ -181,6 +181,7 @@ func ruleDispatch(c *Ctx) {
 			l.add("R-DISPATCH", b.Name, "anchor apply loop", "", Undecided, "no method of Patch dispatches on Operation.Kind()", false)
 			continue
 		}
+		b.operationOrderObligation(l, ai)
 		// (a) case set and handlers
 		var got []string
 		for k := range ai.caseBlk {
@@ -1591,5 +1592,79 @@ func (b *Body) checkOperationShape(l *Ledger) {
 		l.add("R-DISPATCH", b.Name, key, b.rel(kind.Pos()), Violated, bad, true)
 	} else {
 		l.add("R-DISPATCH", b.Name, key, b.rel(kind.Pos()), Discharged, "every return other than the constant \"unknown\" is dominated by ok && obj != nil", true)
+	}
+}
+
+
+// operationOrderObligation: failures are decided in operation order. The
+// apply function has one loop over the patch that can end the call — the
+// dispatch loop; any other loop over the operations (a pre-scan, a
+// validation pass) must not leave through an early exit into an error
+// return, because it would report operation k+n while operation k is the
+// first one that cannot be applied.
+func (b *Body) operationOrderObligation(l *Ledger, ai *applyInfo) {
+	fn := ai.fn
+	key := "apply: an error is only ever reported from the dispatch loop, in operation order"
+	var dispatch *ssa.BasicBlock
+	if ai.kindCall != nil {
+		dispatch = innermostLoopHeader(ai.kindCall.Block())
+	}
+	if dispatch == nil {
+		l.add("R-DISPATCH", b.Name, key, b.rel(fn.Pos()), Undecided, "the dispatch is not inside a loop", false)
+		return
+	}
+	isPatch := func(v ssa.Value) bool {
+		return isNamed(v.Type(), "Patch")
+	}
+	headers := map[*ssa.BasicBlock]bool{}
+	allInstrs(fn, func(i ssa.Instruction) {
+		var x ssa.Value
+		switch e := i.(type) {
+		case *ssa.IndexAddr:
+			x = e.X
+		case *ssa.Index:
+			x = e.X
+		case *ssa.Range:
+			x = e.X
+		default:
+			return
+		}
+		if !isPatch(unwrapConv(x)) {
+			return
+		}
+		blk := i.Block()
+		if _, isRange := i.(*ssa.Range); isRange && len(blk.Succs) == 1 {
+			blk = blk.Succs[0]
+		}
+		if h := innermostLoopHeader(blk); h != nil {
+			headers[h] = true
+		}
+	})
+	bad := ""
+	n := 0
+	for h := range headers {
+		if h == dispatch {
+			continue
+		}
+		n++
+		loop := naturalLoop(h)
+		for u := range loop {
+			if u == h {
+				continue
+			}
+			for _, v := range u.Succs {
+				if loop[v] {
+					continue
+				}
+				if b.rejects(v) {
+					bad = fmt.Sprintf("the loop over the operations at %s leaves through %s into an error return: an operation further down the patch decides the outcome before the earlier ones have been applied", b.posOf(h.Instrs[0]), b.posOf(u.Instrs[len(u.Instrs)-1]))
+				}
+			}
+		}
+	}
+	if bad != "" {
+		l.add("R-DISPATCH", b.Name, key, b.rel(fn.Pos()), Violated, bad, true)
+	} else {
+		l.add("R-DISPATCH", b.Name, key, b.rel(fn.Pos()), Discharged, fmt.Sprintf("the dispatch loop plus %d other loop(s) over the patch, none with an early exit into an error return", n), true)
 	}
 }
